@@ -13,7 +13,6 @@ something else yields a different chain.
 from __future__ import annotations
 
 import ast
-import copy
 import itertools
 from typing import Callable, Dict, List, Optional, Set, Tuple
 
@@ -79,26 +78,31 @@ def _single_defs(fn: ast.AST) -> Dict[str, ast.AST]:
     return {k: v[0] for k, v in bound.items() if len(v) == 1 and v[0] is not None and stores.get(k, 0) == 1 and k not in pars}
 
 
+def _clone(e: ast.AST) -> ast.AST:
+    """Fresh copy of an expression (the repository trees carry parent links: never deepcopy them)."""
+    return ast.parse(ast.unparse(e), mode="eval").body
+
+
 class _Resolve(ast.NodeTransformer):
     def __init__(self, defs: Dict[str, ast.AST]):
         self.defs = defs
         self.depth = 0
 
     def visit_NamedExpr(self, node: ast.NamedExpr):
-        return self.visit(copy.deepcopy(node.value))
+        return self.visit(_clone(node.value))
 
     def visit_Name(self, node: ast.Name):
         if isinstance(node.ctx, ast.Load) and node.id in self.defs and self.depth < 12:
             self.depth += 1
             try:
-                return self.visit(copy.deepcopy(self.defs[node.id]))
+                return self.visit(_clone(self.defs[node.id]))
             finally:
                 self.depth -= 1
         return node
 
 
 def _resolved(e: ast.AST, defs: Dict[str, ast.AST]) -> ast.AST:
-    return _Resolve(defs).visit(copy.deepcopy(e))
+    return _Resolve(defs).visit(_clone(e))
 
 
 # ---------------------------------------------------------------------------
